@@ -176,6 +176,11 @@ def gen(seed, tier):
                 # ... or one fact holding an open list, used with different closed lists
                 dyn = [['d', [['f', '.', [['a', 'a'], ['v', 0]]]]]]
                 tasks = [['d', 1, [TM.J(TM.mklist([('a', 'a'), ('a', rng.choice('bcd'))]))]] for _ in range(ntasks)]
+        if rng.random() < 0.12:
+            # same-atom focus: several facts with the same atom as first argument, several simultaneous calls with that atom
+            dyn = [['d', [['a', 'a'], ['i', i]]] for i in (1, 2, 3)] + [['d', [['a', 'b'], ['i', 4]]]]
+            ntasks = rng.randrange(3, 5)
+            tasks = [['d', 2, [['a', rng.choice('aaab')], ['v', 0]]] for _ in range(ntasks)]
         if goal_facts:
             # a goal term passed in by the caller and called with an extra argument by a compiled clause; the task's
             # argument terms are built once, so the goal term outlives each call
